@@ -86,6 +86,8 @@ def c_expr(e):
     if e is None:
         return "TTrue"
     k = e[0]
+    if k == "raw":
+        return c_expr(e[2])
     if k == "has":
         return "(THas %s)" % cnat(tag_id(e[1]))
     if k == "not":
